@@ -361,3 +361,333 @@ theorem setElevation_single (fs : Bool) (fuel : Nat) (m m' : Map) (e : Int) (x y
   · simp [getElem?_setElevAt, List.getElem?_eq_getElem hlt]
 
 end Aoe.Map
+namespace Aoe.Map
+
+/-! ### fuel bound -/
+
+theorem filter_length_le {α : Type} (p q : α → Bool) (hqp : ∀ a, q a = true → p a = true) :
+    ∀ l : List α, (l.filter q).length ≤ (l.filter p).length
+  | [] => by simp
+  | b :: l => by
+      have ih := filter_length_le p q hqp l
+      simp only [List.filter_cons]
+      cases hq : q b
+      · cases hp : p b <;> simp <;> omega
+      · simp [hqp b hq]; omega
+
+theorem filter_length_lt {α : Type} (p q : α → Bool) (hqp : ∀ a, q a = true → p a = true) :
+    ∀ (l : List α) (a : α), a ∈ l → p a = true → q a = false → (l.filter q).length < (l.filter p).length
+  | [], a, ha, _, _ => by simp at ha
+  | b :: l, a, ha, hpa, hqa => by
+      have hle := filter_length_le p q hqp l
+      simp only [List.filter_cons]
+      rcases List.mem_cons.mp ha with rfl | hm
+      · simp [hpa, hqa]; omega
+      · have ih := filter_length_lt p q hqp l a hm hpa hqa
+        cases hq : q b
+        · cases hp : p b <;> simp <;> omega
+        · simp [hqp b hq]; omega
+
+/-- coordinates of position `k` on a map of size `s` -/
+def coordOf (s k : Nat) : Int × Int := (((k % s : Nat) : Int), ((k / s : Nat) : Int))
+
+/-- number of map positions whose coordinates are not in `vis` -/
+def freeCount (s : Nat) (vis : List (Int × Int)) : Nat :=
+  ((List.range (s * s)).filter (fun k => !vis.contains (coordOf s k))).length
+
+theorem freeCount_cons_lt (s : Nat) (vis : List (Int × Int)) (k : Nat) (hk : k < s * s) (hv : coordOf s k ∉ vis) :
+    freeCount s (coordOf s k :: vis) < freeCount s vis := by
+  unfold freeCount
+  apply filter_length_lt _ _ _ _ k (List.mem_range.mpr hk)
+  · simpa using hv
+  · simp
+  · intro a ha
+    simp only [List.contains_cons, Bool.not_eq_true', Bool.or_eq_false_iff] at ha ⊢
+    simpa using ha.2
+
+theorem freeCount_le_sq (s : Nat) (vis : List (Int × Int)) : freeCount s vis ≤ s * s := by
+  unfold freeCount
+  exact Nat.le_trans (List.length_filter_le _ _) (by simp)
+
+end Aoe.Map
+namespace Aoe.Map
+
+theorem getPosSafe_total (m : Map) (x y : Int) :
+    getPosSafe m x y = .ok none ∨ ∃ k, getPosSafe m x y = .ok (some k) := by
+  have e : getPos false m (some x) (some y) none =
+      (xyToI x y m.size).bind (fun k => if k < m.tiles.length then .ok k else .error .index) := by
+    simp [getPos, truthy, bind]
+  unfold getPosSafe
+  rw [e]
+  unfold xyToI
+  by_cases hoob : (max x y ≥ (m.size : Int) ∨ min x y < 0)
+  · left; simp [hoob, Except.bind]
+  · by_cases hk : (x + y * (m.size : Int)).toNat < m.tiles.length
+    · right; exact ⟨(x + y * (m.size : Int)).toNat, by simp [hoob, Except.bind, hk]⟩
+    · left; simp [hoob, Except.bind, hk]
+
+theorem listGet_lt {α : Type} (l : List α) (k : Nat) (h : k < l.length) : listGet l k = .ok l[k] := by
+  simp [listGet, List.getElem?_eq_getElem h]
+
+theorem foldlM_ok {α : Type} (I : Map → Prop) (step : Map → α → Except Err Map) :
+    ∀ (l : List α) (m : Map), (∀ m a, a ∈ l → I m → ∃ m', step m a = .ok m' ∧ I m') → I m →
+      ∃ m', l.foldlM step m = .ok m' ∧ I m'
+  | [], m, _, hi => ⟨m, rfl, hi⟩
+  | a :: l, m, hs, hi => by
+      obtain ⟨m1, h1, hi1⟩ := hs m a (by simp) hi
+      obtain ⟨m2, h2, hi2⟩ := foldlM_ok I step l m1 (fun m a ha => hs m a (by simp [ha])) hi1
+      exact ⟨m2, by simp [List.foldlM_cons, h1, h2, bind, Except.bind], hi2⟩
+
+theorem elevStep_ok (s : Nat) (xys vis : List (Int × Int)) (recur : Map → Nat → Except Err Map)
+    (src : Nat) (x y : Int) (hsrc : src < s * s)
+    (hrec : ∀ m1 k, WF m1 → m1.size = s → k < s * s → coordOf s k ∉ vis → ∃ m2, recur m1 k = .ok m2)
+    (m : Map) (o : Int × Int) (hwf : WF m) (hs : m.size = s) :
+    ∃ m', elevStep recur src x y xys vis m o = .ok m' := by
+  have hlen : m.tiles.length = s * s := by rw [hwf.1, hs]
+  unfold elevStep
+  simp only []
+  split
+  · next hc =>
+    simp only [Bool.and_eq_true, Bool.not_eq_true', List.contains_eq_mem, decide_eq_false_iff_not] at hc
+    obtain ⟨⟨_, _⟩, hvis⟩ := hc
+    rcases getPosSafe_total m (x + o.1) (y + o.2) with hp | ⟨ko, hp⟩
+    · exact ⟨m, by simp [hp, bind, Except.bind, pure, Except.pure]⟩
+    · obtain ⟨hko, hkolt⟩ := getPosSafe_some m _ _ ko hp
+      rw [hs] at hko
+      have hsrc' : src < m.tiles.length := by omega
+      have h1 := listGet_lt m.tiles src hsrc'
+      have h2 := listGet_lt m.tiles ko hkolt
+      have tail : ∀ fill : Bool, ∃ m',
+          (if fill = true then Except.ok (setElevAt m ko m.tiles[src].elevation)
+           else if (m.tiles[ko].elevation - m.tiles[src].elevation).natAbs > 1 then
+             recur (setElevAt m ko (m.tiles[src].elevation + sign m.tiles[ko].elevation m.tiles[src].elevation)) ko
+           else Except.ok m) = Except.ok m' := by
+        intro fill
+        cases fill
+        · simp only [Bool.false_eq_true, if_false]
+          split
+          · have f1 := Frame.setElevAt (fun _ => False) m ko
+              (m.tiles[src].elevation + sign m.tiles[ko].elevation m.tiles[src].elevation) (fun hf => hf)
+            have hc : coordOf s ko = (x + o.1, y + o.2) := xy_of_xyToI _ _ s ko hko
+            exact hrec _ ko (f1.wf hwf) (by rw [f1.size, hs]) (by omega) (by rw [hc]; exact hvis)
+          · exact ⟨m, rfl⟩
+        · exact ⟨_, rfl⟩
+      simp only [hp, bind, Except.bind, h1, h2]
+      rcases getPosSafe_total m (x + o.1 * 2) (y + o.2 * 2) with hb | ⟨kb, hb⟩
+      · simp only [hb, pure, Except.pure]
+        exact tail false
+      · obtain ⟨_, hkblt⟩ := getPosSafe_some m _ _ kb hb
+        simp only [hb, pure, Except.pure, listGet_lt m.tiles kb hkblt]
+        exact tail _
+  · exact ⟨m, rfl⟩
+end Aoe.Map
+namespace Aoe.Map
+/-- **fuel bound**: the recursion started at a tile whose coordinates are not yet visited terminates normally as
+soon as the fuel is at least the number of unvisited map positions (each nested call visits a new position) -/
+theorem elevRec_ok (s : Nat) (xys : List (Int × Int)) :
+    ∀ (fuel : Nat) (m : Map) (src : Nat) (vis : List (Int × Int)), WF m → m.size = s → src < s * s →
+      coordOf s src ∉ vis → freeCount s vis ≤ fuel → ∃ m', elevRec fuel m src xys vis = .ok m'
+  | 0, m, src, vis, _, _, hsrc, hv, hf => by
+      have := freeCount_cons_lt s vis src hsrc hv
+      omega
+  | fuel + 1, m, src, vis, hwf, hs, hsrc, hv, hf => by
+      have hlt : src < m.tiles.length := by rw [hwf.1, hs]; exact hsrc
+      have hxy : tileXY m m.tiles[src] = .ok (coordOf s src) := by
+        rw [tileXY_wf m hwf src _ (List.getElem?_eq_getElem hlt), hs]; rfl
+      have hfc := freeCount_cons_lt s vis src hsrc hv
+      simp only [elevRec, bind, Except.bind, listGet_lt m.tiles src hlt, hxy]
+      have HF : ∀ (x y : Int) (k : Nat), xyToI x y s = .ok k → (x, y) ∉ xys → ¬ (fun _ : Nat => False) k :=
+        fun _ _ _ _ _ hf => hf
+      have key : ∀ (ma : Map) (o : Int × Int), o ∈ offsets → (WF ma ∧ ma.size = s) →
+          ∃ mb, elevStep (fun m' k => elevRec fuel m' k xys (coordOf s src :: vis)) src (coordOf s src).1
+            (coordOf s src).2 xys (coordOf s src :: vis) ma o = .ok mb ∧ (WF mb ∧ mb.size = s) := by
+        intro ma o _ hi
+        have hrec : ∀ m1 k, WF m1 → m1.size = s → k < s * s → coordOf s k ∉ coordOf s src :: vis →
+            ∃ m2, elevRec fuel m1 k xys (coordOf s src :: vis) = .ok m2 :=
+          fun m1 k w1 s1 hk hkv => elevRec_ok s xys fuel m1 k (coordOf s src :: vis) w1 s1 hk hkv (by omega)
+        obtain ⟨mb, hmb⟩ := elevStep_ok s xys (coordOf s src :: vis) _ src (coordOf s src).1 (coordOf s src).2
+          hsrc hrec ma o hi.1 hi.2
+        have fr := elevStep_frame (fun _ => False) s xys (coordOf s src :: vis) _ src _ _ HF
+          (fun m1 k m2 w1 s1 hr => elevRec_frame _ s xys HF fuel m1 k _ m2 w1 s1 hr) ma o mb hi.1 hi.2 hmb
+        exact ⟨mb, hmb, fr.wf hi.1, by rw [fr.size, hi.2]⟩
+      obtain ⟨m', hm', _⟩ := foldlM_ok (fun m => WF m ∧ m.size = s) _ offsets m key ⟨hwf, hs⟩
+      exact ⟨m', hm'⟩
+end Aoe.Map
+namespace Aoe.Map
+
+theorem mapM_ok_exists {α β : Type} (f : α → Except Err β) (Q : β → Prop) :
+    ∀ l : List α, (∀ a ∈ l, ∃ b, f a = .ok b ∧ Q b) → ∃ bs, l.mapM f = .ok bs ∧ ∀ b ∈ bs, Q b
+  | [], _ => ⟨[], rfl, by simp⟩
+  | a :: l, h => by
+      obtain ⟨b, hb, qb⟩ := h a (by simp)
+      obtain ⟨bs, hbs, qbs⟩ := mapM_ok_exists f Q l (fun a' ha' => h a' (by simp [ha']))
+      refine ⟨b :: bs, by simp [List.mapM_cons, hb, hbs, bind, Except.bind, pure, Except.pure], ?_⟩
+      intro b' hb'
+      rcases List.mem_cons.mp hb' with rfl | hm
+      · exact qb
+      · exact qbs b' hm
+
+theorem pyFirst_ok {α : Type} (l : List α) (h : l ≠ []) : ∃ a, pyFirst l = .ok a ∧ a ∈ l := by
+  cases l with
+  | nil => exact absurd rfl h
+  | cons a l => exact ⟨a, rfl, by simp⟩
+
+theorem pyLast_ok {α : Type} (l : List α) (h : l ≠ []) : ∃ a, pyLast l = .ok a ∧ a ∈ l := by
+  refine ⟨l.getLast h, ?_, List.getLast_mem h⟩
+  simp [pyLast, List.getLast?_eq_some_getLast h]
+
+/-- the recursion started from every edge tile terminates normally with fuel `≥ size²` -/
+theorem edge_fold_ok (fuel : Nat) (xys : List (Int × Int)) (m1 : Map) (hwf : WF m1) (hf : m1.size * m1.size ≤ fuel)
+    (edge : List Nat) (he : ∀ k ∈ edge, k < m1.size * m1.size) :
+    ∃ m', edge.foldlM (fun m k => elevRec fuel m k xys []) m1 = .ok m' := by
+  have HF : ∀ (x y : Int) (k : Nat), xyToI x y m1.size = .ok k → (x, y) ∉ xys → ¬ (fun _ : Nat => False) k :=
+    fun _ _ _ _ _ hf => hf
+  obtain ⟨m', hm', _⟩ := foldlM_ok (fun m => WF m ∧ m.size = m1.size) (fun m k => elevRec fuel m k xys []) edge m1
+    (by
+      intro ma k hk hi
+      obtain ⟨mb, hmb⟩ := elevRec_ok m1.size xys fuel ma k [] hi.1 hi.2 (he k hk) (by simp)
+        (Nat.le_trans (freeCount_le_sq _ _) hf)
+      have fr := elevRec_frame _ m1.size xys HF fuel ma k [] mb hi.1 hi.2 hmb
+      exact ⟨mb, hmb, fr.wf hi.1, by rw [fr.size, hi.2]⟩) ⟨hwf, rfl⟩
+  exact ⟨m', hm'⟩
+
+end Aoe.Map
+namespace Aoe.Map
+
+theorem ok_bind {α β : Type} (a : α) (f : α → Except Err β) : ((Except.ok a : Except Err α) >>= f) = f a := rfl
+
+theorem rectRows_ne_nil (s x1 y1 x2 y2 : Nat) (hy : y1 ≤ y2) : rectRows s x1 y1 x2 y2 ≠ [] := by
+  intro h
+  have := congrArg List.length h
+  simp [rectRows] at this
+  omega
+
+theorem mem_rectRows_row (s x1 y1 x2 y2 : Nat) (hx : x1 ≤ x2) (r : List Nat) (hr : r ∈ rectRows s x1 y1 x2 y2) :
+    r ≠ [] ∧ ∀ k ∈ r, k ∈ (rectRows s x1 y1 x2 y2).flatten := by
+  refine ⟨?_, fun k hk => List.mem_flatten.mpr ⟨r, hr, hk⟩⟩
+  simp only [rectRows, List.mem_map, List.mem_range] at hr
+  obtain ⟨dy, _, rfl⟩ := hr
+  intro h
+  have := congrArg List.length h
+  simp at this
+  omega
+
+theorem setElevation_rect_ok (fs : Bool) (fuel : Nat) (m : Map) (e : Int) (x1 y1 x2 y2 : Nat) (hwf : WF m)
+    (hx : x1 ≤ x2) (hx2 : x2 < m.size) (hy : y1 ≤ y2) (hy2 : y2 < m.size) (hns : ¬ (x1 = x2 ∧ y1 = y2))
+    (hf : m.size * m.size ≤ fuel) :
+    ∃ m', setElevation fs fuel m e x1 y1 (some (x2 : Int)) (some (y2 : Int)) = .ok m' := by
+  have hc : ¬ ((x1 : Int) = (x2 : Int) ∧ (y1 : Int) = (y2 : Int)) := by omega
+  unfold setElevation
+  simp only [Option.getD_some, if_neg hc, squareRowsPos_spec m hwf x1 y1 x2 y2 hx hx2 hy hy2, ok_bind]
+  generalize hps : rectRows m.size x1 y1 x2 y2 = rows
+  have hflat : ∀ k ∈ rows.flatten, k < m.size * m.size := by
+    intro k hk
+    obtain ⟨x, y, h1, h2, h3, h4, rfl⟩ := (mem_rectRows _ _ _ _ _ _).mp (hps ▸ hk)
+    exact pos_lt_sq x y m.size (by omega) (by omega)
+  have hrow : ∀ r ∈ rows, r ≠ [] ∧ ∀ k ∈ r, k ∈ rows.flatten := by
+    intro r hr; subst hps; exact mem_rectRows_row _ _ _ _ _ hx r hr
+  have hne : rows ≠ [] := hps ▸ rectRows_ne_nil _ _ _ _ _ hy
+  generalize hm1 : rows.flatten.foldl (fun m k => setElevAt m k e) m = m1
+  have ff : Frame (fun k => k ∉ rows.flatten) m m1 := hm1 ▸ fill_frame e rows.flatten m
+  have hwf1 : WF m1 := ff.wf hwf
+  have hs1 : m1.size = m.size := ff.size
+  -- xys
+  have hxys : rows.flatten.mapM (fun k => do let t ← listGet m1.tiles k; tileXY m1 t) =
+      .ok (rows.flatten.map (fun k => coordOf m1.size k)) := by
+    apply mapM_ok
+    intro k hk
+    have hlt : k < m1.tiles.length := by rw [hwf1.1, hs1]; exact hflat k hk
+    rw [listGet_lt _ _ hlt, ok_bind]
+    exact tileXY_wf m1 hwf1 k _ (List.getElem?_eq_getElem hlt)
+  obtain ⟨first, hfirst, hfm⟩ := pyFirst_ok rows hne
+  obtain ⟨last, hlast, hlm⟩ := pyLast_ok rows hne
+  obtain ⟨mids, hmids, hmq⟩ := mapM_ok_exists
+    (fun r : List Nat => (do let a ← pyFirst r; let b ← pyLast r; pure [a, b] : Except Err (List Nat)))
+    (fun ab => ∀ k ∈ ab, k ∈ rows.flatten) ((rows.drop 1).dropLast) (by
+      intro r hr
+      have hr' : r ∈ rows := List.mem_of_mem_drop (List.dropLast_subset _ hr)
+      obtain ⟨hrne, hrk⟩ := hrow r hr'
+      obtain ⟨a, ha, ham⟩ := pyFirst_ok r hrne
+      obtain ⟨b, hb, hbm⟩ := pyLast_ok r hrne
+      refine ⟨[a, b], by simp only [ha, hb, ok_bind]; rfl, ?_⟩
+      intro k hk
+      simp at hk
+      rcases hk with rfl | rfl
+      · exact hrk _ ham
+      · exact hrk _ hbm)
+  have hedge : ∀ k ∈ first ++ last ++ mids.flatten, k < m1.size * m1.size := by
+    intro k hk
+    rw [hs1]
+    apply hflat
+    simp only [List.mem_append, List.mem_flatten] at hk
+    rcases hk with (hk | hk) | ⟨ab, hab, hk⟩
+    · exact (hrow first hfm).2 k hk
+    · exact (hrow last hlm).2 k hk
+    · exact hmq ab hab k hk
+  obtain ⟨m', hm'⟩ := edge_fold_ok fuel (rows.flatten.map (fun k => coordOf m1.size k)) m1 hwf1
+    (by rw [hs1]; exact hf) _ hedge
+  refine ⟨m', ?_⟩
+  simp only [hxys, hfirst, hlast, hmids, ok_bind]
+  exact hm'
+
+end Aoe.Map
+namespace Aoe.Map
+theorem setElevation_single_ok (fs : Bool) (fuel : Nat) (m : Map) (e : Int) (x y : Nat) (x2? y2? : Option Int)
+    (hwf : WF m) (hx : x < m.size) (hy : y < m.size)
+    (hx2 : x2?.getD (x : Int) = (x : Int)) (hy2 : y2?.getD (y : Int) = (y : Int))
+    (hf : m.size * m.size ≤ fuel) :
+    ∃ m', setElevation fs fuel m e x y x2? y2? = .ok m' := by
+  unfold setElevation
+  simp only [hx2, hy2, and_self, if_true, getPos_xy false m hwf x y hx hy, ok_bind]
+  have hk : x + y * m.size < m.size * m.size := pos_lt_sq x y m.size hx hy
+  generalize hm1 : (if fs = true then setElevAt m (x + y * m.size) e else m) = m1
+  have ff : Frame (fun _ => False) m m1 := by
+    subst hm1; cases fs
+    · exact Frame.refl _ m
+    · exact Frame.setElevAt _ m _ e (fun hf => hf)
+  have hwf1 : WF m1 := ff.wf hwf
+  have hs1 : m1.size = m.size := ff.size
+  have hlt : x + y * m.size < m1.tiles.length := by rw [hwf1.1, hs1]; exact hk
+  have hxy := tileXY_wf m1 hwf1 _ _ (List.getElem?_eq_getElem hlt)
+  simp only [listGet_lt _ _ hlt, ok_bind, hxy]
+  exact elevRec_ok m1.size _ fuel m1 _ [] hwf1 rfl (by rw [hs1]; exact hk) (by simp)
+    (Nat.le_trans (freeCount_le_sq _ _) (by rw [hs1]; exact hf))
+end Aoe.Map
+namespace Aoe.Map
+
+theorem fold_frame_any (fuel : Nat) (xys : List (Int × Int)) (m1 m' : Map) (hwf : WF m1) (edge : List Nat)
+    (h : edge.foldlM (fun m k => elevRec fuel m k xys []) m1 = .ok m') : Frame (fun _ => False) m1 m' := by
+  have HF : ∀ (x y : Int) (k : Nat), xyToI x y m1.size = .ok k → (x, y) ∉ xys → ¬ (fun _ : Nat => False) k :=
+    fun _ _ _ _ _ hf => hf
+  refine foldlM_frame (fun m => WF m ∧ m.size = m1.size) (Frame _) _ (Frame.refl _)
+    (fun _ _ _ => Frame.trans) (fun a b hi r => ⟨r.wf hi.1, by rw [r.size, hi.2]⟩) edge m1 m' ?_ ⟨hwf, rfl⟩ h
+  intro ma k mb _ hi hstep
+  exact elevRec_frame _ m1.size xys HF fuel ma k [] mb hi.1 hi.2 hstep
+
+/-- whatever its arguments, a `set_elevation` that returns normally changed nothing but elevations -/
+theorem setElevation_frame_any (fs : Bool) (fuel : Nat) (m m' : Map) (e x1 y1 : Int) (x2? y2? : Option Int)
+    (hwf : WF m) (h : setElevation fs fuel m e x1 y1 x2? y2? = .ok m') : Frame (fun _ => False) m m' := by
+  unfold setElevation at h
+  simp only [] at h
+  split at h
+  · obtain ⟨k, _, h⟩ := bind_ok _ _ _ h
+    generalize hm1 : (if fs = true then setElevAt m k e else m) = m1 at h
+    have ff : Frame (fun _ => False) m m1 := by
+      subst hm1; cases fs
+      · exact Frame.refl _ m
+      · exact Frame.setElevAt _ m _ e (fun hf => hf)
+    obtain ⟨t, _, h⟩ := bind_ok _ _ _ h
+    obtain ⟨xy, _, h⟩ := bind_ok _ _ _ h
+    have HF : ∀ (x y : Int) (k : Nat), xyToI x y m1.size = .ok k → (x, y) ∉ [xy] → ¬ (fun _ : Nat => False) k :=
+      fun _ _ _ _ _ hf => hf
+    exact ff.trans (elevRec_frame _ m1.size [xy] HF fuel m1 k [] m' (ff.wf hwf) rfl h)
+  · obtain ⟨rows, _, h⟩ := bind_ok _ _ _ h
+    generalize hm1 : rows.flatten.foldl (fun m k => setElevAt m k e) m = m1 at h
+    have ff : Frame (fun k => k ∉ rows.flatten) m m1 := hm1 ▸ fill_frame e rows.flatten m
+    obtain ⟨xys, _, h⟩ := bind_ok _ _ _ h
+    obtain ⟨first, _, h⟩ := bind_ok _ _ _ h
+    obtain ⟨last, _, h⟩ := bind_ok _ _ _ h
+    obtain ⟨mids, _, h⟩ := bind_ok _ _ _ h
+    exact (ff.mono (fun _ hk => hk.elim)).trans (fold_frame_any fuel xys m1 m' (ff.wf hwf) _ h)
+
+end Aoe.Map
